@@ -396,9 +396,17 @@ def pipeline(ctx):
                              'the image surface) - (distance back to the '
                              'sphere)', construct='path length'))
     # reference and sample pass the same sphere to the same function
-    fd = [m for m in c.methods.values() if any(
+    fds = [m for m in c.methods.values() if any(
         isinstance(n, ast.Call) and unparse(n.func) == 'self.optic.trace'
-        for n in ast.walk(m.node))][0]
+        for n in ast.walk(m.node))]
+    if not fds:
+        res.fail(ctx.finding('SAME-PIPELINE', pl, pl.node,
+                             'no method of Wavefront traces the sample rays '
+                             '(self.optic.trace): the OPD is computed from '
+                             'whatever records an earlier trace left',
+                             construct='sample trace'))
+        return res
+    fd = fds[0]
     calls_ref = [x for x in ast.walk(g.node) if isinstance(x, ast.Call) and
                  isinstance(x.func, ast.Attribute) and x.func.attr == pl.name]
     calls_smp = [x for x in ast.walk(fd.node) if isinstance(x, ast.Call) and
